@@ -283,8 +283,8 @@ def run(ctx):
     sweep_runs = 0
     for e in sweep:
         for layout in ("C", "F", "strided"):
-            for name in ("matmat", "matvec", "rmatmat", "to_dense", "diag"):
-                if name in ("to_dense", "diag") and layout != "C":
+            for name in ("matmat", "matvec", "rmatmat", "to_dense", "diag", "roundtrip", "to_none", "annotate"):
+                if name in ("to_dense", "diag", "roundtrip", "to_none", "annotate") and layout != "C":
                     continue
                 r = S.run_sequence([name], pool, rnd, force=e, layout=layout)
                 sweep_runs += 1
